@@ -349,6 +349,7 @@ func checkC10(c *ev.Ctx) {
 	os.RemoveAll(base)
 	os.MkdirAll(base, 0o755)
 	defer os.RemoveAll(base)
+	gxzManyArgs(c, base)
 	scens := c10Scenarios(c)
 	c.Set("scenarios", len(scens))
 	type job struct {
